@@ -49,8 +49,36 @@ _to_period _units _validate _wrapper
 """.split())
 
 
+KNOWN_FUNCS = frozenset("""
+__call__ __getattr__ __getitem__ __init__ __new__ __repr__ __setitem__ _append_spectrum _check_and_stack_dims _combine_last
+_construct_spectra _fit_gaussian _fit_jonswap _frequency_resolution _get_cf_attributes _get_obs_files _get_timestamp
+_import_functions _interp_freq _is_180 _is_360 _is_circular _is_contiguous _my_name _non_spec_dims _partition_stats _peak
+_plot_partitions _polar_dir _read_header _read_obscape_file _read_spotter_csv _read_spotter_json _set_attributes _set_labels
+_set_metadata _spec_dims _standard_name _swap_longitude_convention _to_logradius _to_period _units _validate _wrapper alpha angle
+asymmetric bbox cartwright cbar_ticks celerity check_same_coordinates chunks_dict close combine_partitions_hp01 conditional
+construct_dataset construct_partition construct_spectra convert coords crsd darr data dd df dfp_swell dfp_wsea dims dir dirs
+distance dm dname dp dpm dpspr dspr extract_direction fdspr file_reader filenames fit_gaussian fit_gaussian_params
+fit_gaussian_spectra fit_jonswap fit_jonswap_params fit_jonswap_spectra flatten_list fname format fp freq freqs from_era5
+from_ncswan from_ndbc from_ww3 from_wwm funwave_spectrum gamma gaussian goda guess_can_open gw hmax hp01 hrms hs interp
+interp_like interp_spec is_overlap jonswap kwargs load_function location lons main match_consecutive_partitions
+mean_direction_at_peak_wave_period mom1 momd momf mss nearer nearest np_hp01 np_hp01_wseabins np_hp01_wseafrac_wseabins np_ptm1
+np_ptm2 np_ptm3 np_track_partitions oned open open_dataset open_netcdf open_netcdf_or_zarr parse_awac_nmea
+parse_awac_nmnea_wave_parameters parse_kwargs partition partition_and_reconstruct peak_directional_spread peak_wave_direction
+peak_wave_period pierson_moskowitz plot polar_plot ptm1 ptm1_track ptm2 ptm3 ptm4 ptm5 radii_ticklabels radii_ticks read
+read_ascii_or_binary read_awac read_awac_strings read_data read_dataset read_datawell read_era5 read_file read_funwave read_header
+read_hotswan read_json read_ncswan read_ndbc read_ndbc_ascii read_netcdf read_obscape read_obscape_dir read_octopus read_params
+read_spectra read_spotter read_swan read_swanow read_swans read_tab read_triaxys read_wavespectra read_ww3 read_ww3_station
+read_wwm read_xwaves readall reconstruct regrid_spec rmax rmin rmse rotate run scale_by_hs scaled sel sel_bbox sel_idw sel_nearest
+set_spec_attributes smooth smooth_spec spddir_to_uv spectra split spread_hp01 stats sw swe time tm01 tm02 tma to_coords to_energy
+to_funwave to_json to_nautical to_netcdf to_octopus to_orcaflex to_swan to_ww3 tp tps track_partitions unique_indices unique_times
+uss uss_x uss_y uv_to_spddir waveage wavelen wavenuma write_header write_spectra
+""".split())
+
+
 def _is_candidate_name(name):
-    return name.startswith("_") and not name.startswith("__") and name not in KNOWN_PRIVATE
+    """A function that did not exist (under that name) when the rules were written: a helper produced by extract / split / move
+    refactorings, private or not.  Dunder names never."""
+    return not name.startswith("__") and name not in KNOWN_FUNCS and name not in KNOWN_PRIVATE
 
 
 def _strip_doc(body):
@@ -63,7 +91,7 @@ def _ends_with_return(stmts):
     if not stmts:
         return False
     last = stmts[-1]
-    if isinstance(last, (ast.Return, ast.Raise)):
+    if isinstance(last, ast.Return):
         return True
     if isinstance(last, ast.If):
         return _ends_with_return(last.body) and _ends_with_return(last.orelse)
@@ -264,6 +292,8 @@ def _expand(fn, call, mode, target, uid, is_method):
             e0 = _ret_stmt(None)
             return (e0 if isinstance(e0, list) else [e0]) if (mode != "expr" and e0 is not None) else []
         last = stmts[-1]
+        if isinstance(last, ast.Raise):
+            return stmts
         if isinstance(last, ast.Return):
             rs = _ret_stmt(last.value)
             return stmts[:-1] + (rs if isinstance(rs, list) else [rs] if rs is not None else [])
@@ -329,6 +359,14 @@ class _Inliner(ast.NodeTransformer):
             fi = self.cls_methods.get(f.attr)
             if fi is not None and not fi.is_property:
                 return fi, True
+        if isinstance(f, ast.Attribute) and isinstance(f.value, ast.Name) and f.value.id != "self" and _is_candidate_name(f.attr):
+            imp = self.module.imports.get(f.value.id)
+            if imp:
+                cand = [imp[0]] if imp[1] is None else [f"{imp[0]}.{imp[1]}", imp[0]]
+                for mn in cand:
+                    src = self.repo.modules.get(mn)
+                    if src is not None and f.attr in src.funcs:
+                        return src.funcs[f.attr], False
         return None, False
 
     def _if_test(self, st):
@@ -433,6 +471,39 @@ class _Inliner(ast.NodeTransformer):
         return holder.body
 
 
+def _monotone_lines(fn):
+    """Statements of an expanded helper all carry the line of the call they replaced; rules order statements by line number
+    (reaching assignment `before` a use).  Make line numbers strictly increasing in statement order inside this function; only
+    statements that would otherwise tie or go backwards are moved (reports for such a function may then show a shifted line)."""
+    prev = [fn.lineno]
+
+    def bump(st):
+        if getattr(st, "lineno", None) is None:
+            return
+        if st.lineno <= prev[0]:
+            delta = prev[0] + 1 - st.lineno
+            for n in ast.walk(st):
+                if hasattr(n, "lineno") and n.lineno is not None:
+                    n.lineno += delta
+                if getattr(n, "end_lineno", None) is not None:
+                    n.end_lineno += delta
+        prev[0] = st.lineno
+
+    def walk(stmts):
+        for st in stmts:
+            bump(st)
+            for f in ("body", "orelse", "finalbody"):
+                v = getattr(st, f, None)
+                if isinstance(v, list) and v and isinstance(v[0], ast.stmt):
+                    walk(v)
+            if isinstance(st, ast.Try):
+                for h in st.handlers:
+                    walk(h.body)
+            prev[0] = max(prev[0], getattr(st, "end_lineno", None) or prev[0]) if not any(
+                isinstance(getattr(st, f, None), list) and getattr(st, f) and isinstance(getattr(st, f)[0], ast.stmt) for f in ("body", "orelse", "finalbody")) else prev[0]
+    walk(fn.body)
+
+
 _ALL_USED = set()
 
 
@@ -475,6 +546,7 @@ def inline_new_private_helpers(repo):
                                     elif g in h.module.funcs or g in h.module.classes or g in h.module.consts:
                                         m.imports[g] = (h.module.name, g)
                     ast.fix_missing_locations(fi.node)
+                    _monotone_lines(fi.node)
         total += n_round
         if not n_round:
             break
